@@ -26,6 +26,12 @@ CHECKS.update({
     "C06": dict(text="for all 11 matrix/affine types: every accessor and constructor agrees on the column-major position of entry (r,c) bit for bit, from_diagonal, transpose, col_mut aliasing, minor constructors for every valid (i,j) and must-panic for invalid ones, with arbitrary hidden lanes in Mat3A/Affine3A columns; product laws are decided by E2 where built",
                 design="4/C06", tech=E1),
 })
+CHECKS.update({
+    "C08": dict(text="two-run non-interference on the compiled SSE2 build: every public method, operator and conversion that touches Vec3A / Mat3A / Affine3A / BVec3A is executed twice on operands with identical visible lanes and independent arbitrary hidden lanes; all visible result components must be bit-identical. One step from arbitrary hidden content is the inductive step for compositions of any length",
+                design="4/C08", tech=E1 + "; relational (two-run) harnesses, uninterpreted sqrt/transcendentals"),
+    "C18": dict(text="every public method of the float vector, quaternion, matrix and affine types (signature-driven harness generation, ~1100 functions per configuration) is executed with all arguments unconstrained bit patterns and any-libm transcendental shims: no reachable panic, no failed bounds / pointer check; documented panics as must-panic / must-not-panic pairs: slice functions over exact-size objects for every length 0..N+4 (also: exactly the first N elements read/written, rest untouched), Index/IndexMut with symbolic index",
+                design="4/C18", tech=E1),
+})
 NA = {}
 
 
